@@ -76,6 +76,14 @@ fn mine(prop: &str, r: &RunResult) -> Vec<Finding> {
 		// data is reachable only under a live hold: the hold must really be there
 		"C15" => v.extend(r.findings.iter().filter(|f| f.prop == "C02").map(|f| Finding { prop: "C15", sig: format!("data-reached-without-a-live-hold|{}", f.sig), ..f.clone() })),
 		// one key per thread, surrendered for the whole of every hold
+		// total allocation is what makes the ordering argument work: a key that
+		// can be had while the thread holds a lock allows hold-and-wait
+		"C01" => v.extend(
+			r.findings
+				.iter()
+				.filter(|f| f.prop == "C03" && (f.sig.starts_with("key-obtainable-while-holding") || f.sig.starts_with("key-back-while-holding")))
+				.map(|f| Finding { prop: "C01", sig: format!("hold-and-wait-possible|{}", f.sig), ..f.clone() }),
+		),
 		// the value that comes back is the last one written under the lock:
 		// only if sections on the same lock really exclude each other
 		"C16" => v.extend(r.findings.iter().filter(|f| f.prop == "C02").map(|f| Finding { prop: "C16", sig: format!("last-write-not-protected|{}", f.sig), ..f.clone() })),
